@@ -8,7 +8,7 @@ from ..pm import src
 from ..q import FA, call_name, guard_facts, is_self_attr, walk_no_nested, const, stored_value, store_target
 from ..pat import find_stmt, find_expr, match_stmt, match_expr
 
-TECHNIQUE = "R-SIB on the parallel core-field tables, R-ORDER on registry co-update, R-WRITERS set equality between lazily cached properties and the invalidation method, def-use on dtype construction and positional pairing, effect rule (no copying primitive) for the unstructured view; R-MEMO memoisation rule"
+TECHNIQUE = "R-SIB on the parallel core-field tables, R-ORDER on registry co-update, R-WRITERS set equality between lazily cached properties and the invalidation method, def-use on dtype construction and positional pairing, effect rule (no copying primitive) for the unstructured view; R-MEMO memoisation rule; path-summary comparison of dtype / constructor / view forms"
 
 CFG = "nessai.config:LivepointsConfig"
 LP = "nessai.livepoint"
